@@ -18,6 +18,13 @@ Step(ev) ==
          /\ Chk(\A i \in 1..6 : (ev.ops[i] = 1) = Rel(OPS[i], r), "relational operators are not the ones derived from the ordering")
     [] ev.e = "as" -> Chk(Outcome(ev, As(ev.kind, ev.a)), "as_" \o ev.kind \o ": value iff the kinds match (int and float convert into each other), else type_error")
     [] ev.e = "size" -> LET s == Size(ev.a) IN Chk(ev.out = s.out /\ (s.out = "ok" => ev.n = s.val.n), "size()")
+    [] ev.e = "empty" -> LET z == Size(ev.a) IN Chk(ev.out = z.out /\ (z.out = "ok" => ev.n = (IF z.val.n = 0 THEN 1 ELSE 0)), "empty()")
+    [] ev.e = "clear" -> /\ Chk(ev.out = Size(ev.a).out, "clear(): containers only")
+                         /\ Chk(SameVal(ev.orig, ev.a), "clear() on a copy changed the original")
+                         /\ Chk(ev.out # "ok" \/ SameVal(ev.val, IF ev.a.t = "list" THEN [t |-> "list", v |-> <<>>] ELSE [t |-> "dict", k |-> <<>>, v |-> <<>>]),
+                                "clear() must leave an empty container of the same kind")
+    [] ev.e = "setat" -> Chk(SameVal(ev.val, [ev.a EXCEPT !.v[ev.index + 1] = [t |-> "str", s |-> <<114, 101, 112, 108, 97, 99, 101, 100>>]]),
+                             "assignment through at(index) must replace exactly that element")
     [] ev.e = "at" -> Chk(Outcome(ev, IF ev.bykey = 1 THEN AtKey(ev.a, ev.key) ELSE AtIndex(ev.a, ev.index)),
                           "at(): the element, out_of_range when absent, type_error on the wrong container")
     [] ev.e = "get" -> LET el == IF ev.bykey = 1 THEN AtKey(ev.a, ev.key) ELSE AtIndex(ev.a, ev.index) IN
